@@ -430,6 +430,10 @@ def main_check(prop, tier, seed):
     os.makedirs(os.path.join(VERIF, "evidence"), exist_ok=True)
     with open(os.path.join(VERIF, "evidence", f"{prop}.json"), "w") as f:
         json.dump(ev, f, indent=1, default=str)
+    # per-tier copy, so that the last quick and the last thorough run can both be inspected
+    os.makedirs(os.path.join(VERIF, "evidence", tier), exist_ok=True)
+    with open(os.path.join(VERIF, "evidence", tier, f"{prop}.json"), "w") as f:
+        json.dump(ev, f, indent=1, default=str)
     # summary to stdout
     for pi in per_inst:
         print(f"  {pi['name']:<44} {pi['status']:<12} paths={pi['paths']:<7} queries={pi['queries']:<8} "
